@@ -10,9 +10,9 @@ from .harness import call
 META = {
     "rule": "on project P2 (+ access-controlled tags), personalities {v20, v32, m800} x connection {4000, 500}: an alphabet of 8 valid reads of "
     "every packet kind (small atomic, bit, BOOL range, structure, string, fragmented, nested string member, member of an array "
-    "element) and 7 invalid reads of every failure kind (unknown tag, unknown member, malformed {x}, index out of range, count "
-    "beyond the array, .bit on a structure, no-access tag), likewise 9 valid / 10 invalid writes (plus unencodable value, too-short "
-    "list, misaligned BOOL range, read-only tag): ALL lists of length 1, 2 and 3 over each alphabet, all lists of length 4 over a "
+    "element) and 10 invalid reads of every failure kind (unknown tag, unknown member, malformed {x}, index out of range, count "
+    "beyond the array, .bit on a structure, no-access tag, and requests sent under another wire name - bit of an element / BOOL-array element / range - that the controller refuses), "
+    "likewise 9 valid / 14 invalid writes (plus unencodable value, too-short list, a value without a length for several elements, misaligned BOOL range, read-only tag): ALL lists of length 1, 2 and 3 over each alphabet, all lists of length 4 over a "
     "6-request sub-alphabet, and straddling lists (n medium requests with an invalid, a fragmented or a duplicate request inserted "
     "at every position, n chosen to span 1-3 multi-service packets). Refused services (deviation bound 1 on the controller's answers): in single, "
     "3-request and 6-request calls the n-th tag service - every n, including members of multi-service packets and every fragment - is refused with each of 9 "
